@@ -440,7 +440,7 @@ package martian
 //@   ensures[empty-iff-no-errors] result == (len(merr.errs) == 0) && merrIdle(merr)
 
 //@ func (*MultiError).Add
-//@   serves C13
+//@   serves C13 C12
 //@   requires merrIdle(merr) && err != nil
 //@   requires typeis(err, *MultiError) ==> merrIdle(as(err, *MultiError)) && as(err, *MultiError) != merr
 //@   modifies merr.errs, merr.mu.wheld, as(err, *MultiError).mu.rheld, merr.errs[*]
